@@ -143,12 +143,12 @@ static void ref1(Out& ref, i128 stdv, i128 exact)
 enum OpId {
     OP_CAST, OP_FLOOR, OP_CEIL, OP_ROUND, OP_RND4, OP_TP_CAST, OP_TP_RND4,
     OP_CONV, OP_TP_CONV, OP_PLUS, OP_MINUS, OP_DIV, OP_MOD, OP_CMP, OP_TP_CMP, OP_CTYPE, OP_PERIOD, OP_UNARY,
-    OP_TP_UNARY, OP_COMPOUND, OP_TP_COMPOUND, OP_ABS, OP_LIMITS, OP_FCAST_IF, OP_FCONV_IF, OP_SCALAR, OP_TP_ARITH, OP_CASTW, OP_D_CAST, OP_D_RND4, OP_D_ARITH, OP_D_MIXED, OP_D_SCALAR, OP_NONE
+    OP_TP_UNARY, OP_COMPOUND, OP_TP_COMPOUND, OP_ABS, OP_LIMITS, OP_FCAST_IF, OP_FCONV_IF, OP_SCALAR, OP_TP_ARITH, OP_CASTW, OP_D_CAST, OP_D_RND4, OP_D_ARITH, OP_D_MIXED, OP_D_SCALAR, OP_D_PM, OP_D_MPM, OP_NONE
 };
 static OpId op_id(std::string const& s)
 {
     static char const* const names[] = {"cast", "floor", "ceil", "round", "rnd4", "tp_cast", "tp_rnd4", "conv", "tp_conv", "plus", "minus", "div", "mod", "cmp", "tp_cmp", "ctype", "period",
-        "unary", "tp_unary", "compound", "tp_compound", "abs", "limits", "fcast_if", "fconv_if", "scalar", "tp_arith", "castw", "d_cast", "d_rnd4", "d_arith", "d_mixed", "d_scalar"};
+        "unary", "tp_unary", "compound", "tp_compound", "abs", "limits", "fcast_if", "fconv_if", "scalar", "tp_arith", "castw", "d_cast", "d_rnd4", "d_arith", "d_mixed", "d_scalar", "d_pm", "d_mpm"};
     for (int k = 0; k < OP_NONE; ++k) {
         if (s == names[k]) { return static_cast<OpId>(k); }
     }
@@ -236,12 +236,12 @@ struct Ops {
     static bool run(OpId op, Toks& in, Out& impl, Out& ref)
     {
 #ifdef C12_FSRC
-        if (op != OP_D_CAST && op != OP_D_RND4 && op != OP_D_ARITH && op != OP_D_MIXED && op != OP_D_SCALAR) {
+        if (op != OP_D_CAST && op != OP_D_RND4 && op != OP_D_ARITH && op != OP_D_MIXED && op != OP_D_SCALAR && op != OP_D_PM && op != OP_D_MPM) {
             impl.tok("skip");
             return true;
         }
 #else
-        if (op == OP_D_CAST || op == OP_D_RND4 || op == OP_D_ARITH || op == OP_D_MIXED || op == OP_D_SCALAR) {
+        if (op == OP_D_CAST || op == OP_D_RND4 || op == OP_D_ARITH || op == OP_D_MIXED || op == OP_D_SCALAR || op == OP_D_PM || op == OP_D_MPM) {
             impl.tok("skip");
             return true;
         }
@@ -638,6 +638,39 @@ struct Ops {
                 SD2 b{y};
                 ref.tok("ok").tok(dbits((a + b).count())).tok(dbits((a - b).count())).tok(dbits(a / b));
                 ref.b(a == b).b(a != b).b(a < b).b(a <= b).b(a > b).b(a >= b);
+                return true;
+            }
+            if (op == OP_D_PM) {
+                // + - and the six comparisons of two double-count durations (the part of d_arith that the theorems
+                // C12_float_source_arith_exact / C12_float_arith_guarded cover for whole-valued counts)
+                double x = rd();
+                double y = rd();
+                {
+                    ED1 a{x};
+                    ED2 b{y};
+                    impl.tok("ok").tok(dbits((a + b).count())).tok(dbits((a - b).count()));
+                    impl.b(a == b).b(a != b).b(a < b).b(a <= b).b(a > b).b(a >= b);
+                }
+                SD1 a{x};
+                SD2 b{y};
+                ref.tok("ok").tok(dbits((a + b).count())).tok(dbits((a - b).count()));
+                ref.b(a == b).b(a != b).b(a < b).b(a <= b).b(a > b).b(a >= b);
+                return true;
+            }
+            if (op == OP_D_MPM) {
+                // duration<int64, P1>{c} + - == != < >= duration<double, P2>{y}  (C12_float_mixed_exact)
+                auto c   = static_cast<R1>(in.num());
+                double y = rd();
+                {
+                    E1 a{c};
+                    ED2 b{y};
+                    impl.tok("ok").tok(dbits((a + b).count())).tok(dbits((a - b).count()));
+                    impl.b(a == b).b(a != b).b(a < b).b(a >= b);
+                }
+                S1 a{c};
+                SD2 b{y};
+                ref.tok("ok").tok(dbits((a + b).count())).tok(dbits((a - b).count()));
+                ref.b(a == b).b(a != b).b(a < b).b(a >= b);
                 return true;
             }
             if (op == OP_D_MIXED) {
